@@ -169,6 +169,11 @@ func runEncCase(c *encCaseJ, em *emitter, index int) error {
 	if regions == nil {
 		regions = [][2]int64{}
 	}
+	// the model checker's integers are 32-bit: bounds far beyond any file are reported just below 2^31 (order preserved)
+	evRegions := make([][2]int64, len(regions))
+	for i, r := range regions {
+		evRegions[i] = [2]int64{min(r[0], 1<<31-2), min(r[1], 1<<31-1)}
+	}
 	count := int64(len(c.Spec.Regions))
 	if c.Spec.RawCount != nil {
 		count = *c.Spec.RawCount
@@ -210,7 +215,7 @@ func runEncCase(c *encCaseJ, em *emitter, index int) error {
 		}
 		return view, nil
 	}
-	ev := map[string]interface{}{"ev": "EncOpen", "name": c.Name, "index": index, "regions": regions, "count": pos(count), "clear": c.Clear,
+	ev := map[string]interface{}{"ev": "EncOpen", "name": c.Name, "index": index, "regions": evRegions, "count": pos(count), "clear": c.Clear,
 		"masked": c.Wrap3k3y != "", "decrypting": c.Wrap3k3y != "over-raw", "total": pos(int64(len(img.raw))), "cut": len(c.Cut) > 0,
 		"layout": c.Layout != nil, "facts": map[string]interface{}{"none": true}}
 	if c.Facts != nil {
